@@ -515,6 +515,12 @@ class Gen:
             return ("rel", rng.choice(RELS), a, b)
         if r < 0.72:
             return ("not", self.rel(names, d - 1))
+        if r < 0.80 and names:
+            # a window on one quantity: lo < x < hi
+            x = ("var", rng.choice(names))
+            lo, hi = sorted(rng.sample(["0", "0.5", "1", "1.5", "2", "0.25"], 2), key=float)
+            lo_e = ("num", lo) if rng.random() < 0.7 else ("neg", ("num", hi))
+            return ("and", [("rel", rng.choice(["Gt", "Ge"]), x, lo_e), ("rel", rng.choice(["Lt", "Le"]), x, ("num", hi))])
         n = rng.choice([2, 2, 2, 3, 3, 4, 5])
         return (rng.choice(["and", "or"]), [self.rel(names, d - 1) for _ in range(n)])
 
